@@ -266,11 +266,16 @@ class Ctx:
             t.nontriv(hash(repr(before)))
 
 
-def profiles(tier):
+def profiles(tier, light=False):
     mA = [([(0, 5), (4, 5)], 3), ([(28, 77), (0, 77), (28, 5)], 3), ([(12, 5)], 4)]
     mB = [([(0, 1), (28, 6)], 3), ([(28, 1), (28, 2), (28, 3)], 3)]
     mC = [([(31, 3), (1, 3)], 3), ([(6, 9), (7, 9), (13, 3)], 4)]
     mD = [([(56, 1), (0, 1)], 3), ([(8, 1), (8, 2), (8, 3)], 5)]
+    if tier == "quick" and light:
+        return [
+            dict(univ="A", q0s=[3], autos=[False, True], maxq=4, maxel=2, rsz=[0, 3, 4], merges=mA[:1], nparts=1),
+            dict(univ="B", q0s=[3], autos=[False], maxq=3, maxel=6, rsz=[0, 3], merges=mB[:1], nparts=1),
+        ]
     if tier == "quick":
         return [
             dict(univ="A", q0s=[3], autos=[False, True], maxq=4, maxel=3, rsz=[0, 2, 3, 4], merges=mA, nparts=1),
@@ -289,7 +294,7 @@ def profiles(tier):
 def run(focus, tier, seed):
     total = Tally(focus)
     jobs = []
-    for p in profiles(tier):
+    for p in profiles(tier, focus in ("C05", "C14", "C19")):
         mod = mc_module(p["univ"], p["q0s"], p["autos"], p["rsz"], p["merges"])
         const = {k: p[k] for k in ("univ", "q0s", "autos", "maxq", "maxel", "rsz")}
         # design level: TLC checks the invariants on the model
